@@ -3,7 +3,7 @@
 (* event names the earlier event(s) it is related to; the trace specification first checks  *)
 (* that the INPUTS really are so related (nothing is taken on trust from the driver) and     *)
 (* then requires the corresponding relation between the DOCUMENTS.                          *)
-EXTENDS Reference
+EXTENDS Reference, CliRef, ServerRef
 
 TOL == 8     \* 1/1000 of a cell width, in milli lattice units
 
